@@ -50,8 +50,13 @@ class UnitarySerializedEmulator(IndependentSubcircuitsBackend):
 
         # vec = U * inp
         # We don't need to initialize inp yet
-        inp = numpy.empty(hilb_dim, dtype=complex)
-        vec = numpy.zeros(hilb_dim, dtype=complex)
+        try:
+            inp = numpy.empty(hilb_dim, dtype=complex)
+            vec = numpy.zeros(hilb_dim, dtype=complex)
+        except (MemoryError, ValueError, OverflowError):
+            raise JaqalError(
+                f"Cannot emulate {n_qubits} qubits: the state vector does not fit in memory"
+            ) from None
         vec[0] = 1
 
         # We serialize the subcircuit, obtaining a list of gates.
